@@ -18,11 +18,21 @@ Five kinds of observation (see harness/cmd/c11):
              progress on one gun object, one calling goroutine per gun.
 * `race` / `hammer` — n concurrent instances (whole pool / one shared object) under the Go race detector: no race
              report, no fatal runtime error (`concurrent map writes` …), no panic.
-* `locks`  — the regenerated lock-facts table itself: every access site guarded, classes consistent.
+* `locks`  — the regenerated lock-facts table itself: every access site guarded, classes consistent; the regenerated
+             closure table: no function literal that assigns its captured variables is stored where another goroutine
+             finds it; the regenerated hand-over words: no function touches a sample / an ammo after handing it on.
+* `isolate` — ONE goroutine: the variables each shot of an n-instance pool extracted from ITS responses (echoed to the
+             target by the later steps of the scenario), against what the same shot extracts in a fresh pool where it is the
+             only shot: a difference is a cross-instance effect, whatever the schedule.
+
+`alias` additionally reports, after the shots, the units the two instances have in common that they did not have in
+common before (`late`: whatever the shots cached in shared objects), which of those a second round of shots changed
+(`latemut`), and the closure objects (func values with captured variables) both instances reach (`closures`).
 -/
 import Pandora.Model.C11Sharing
 import Pandora.Model.C11Table
 import Pandora.Model.C11Own
+import Pandora.Model.C11Modifiers
 import Pandora.Gen.Locks
 
 namespace Pandora.Spec.C11
@@ -74,7 +84,10 @@ def inventory : List Entry := [
   ⟨"httpscenario.Request.Body(*string)", .ro, fun c => c.kind == "httpscen"⟩,
   ⟨"httpscenario.Request.Headers(map)", .ro, fun c => c.kind == "httpscen"⟩,
   ⟨"httpscenario.Request.Postprocessors(slice)", .ro, fun c => c.kind == "httpscen"⟩,
+  ⟨"httpscenario.Request.Postprocessors[](*postprocessor.AssertResponse)", .ro, fun c => c.kind == "httpscen"⟩,
+  ⟨"httpscenario.Request.Postprocessors[](*postprocessor.VarHeaderPostprocessor)", .ro, fun c => c.kind == "httpscen"⟩,
   ⟨"httpscenario.Request.Postprocessors[](*postprocessor.VarJsonpathPostprocessor)", .ro, fun c => c.kind == "httpscen"⟩,
+  ⟨"httpscenario.Request.Postprocessors[](*postprocessor.VarXpathPostprocessor)", .ro, fun c => c.kind == "httpscen"⟩,
   ⟨"httpscenario.Request.Preprocessor(*preprocessor.Preprocessor)", .ro, fun c => c.kind == "httpscen"⟩,
   ⟨"httpscenario.Request.Templater(*templater.HTMLTemplater)", .ro, fun c => c.kind == "httpscen"⟩,
   ⟨"httpscenario.Request.Templater(*templater.TextTemplater)", .ro, fun c => c.kind == "httpscen"⟩,
@@ -85,7 +98,12 @@ def inventory : List Entry := [
   ⟨"phttp.BaseGun.AnswLog(*zap.Logger)", .opaque, fun c => c.http || c.kind == "httpscen"⟩,
   ⟨"phttp.SharedDeps.clientPool(*clientpool.Pool[components/guns/http.Client])", .sync [lockPoolI], fun c => c.http && c.sharedClient⟩,
   ⟨"phttp.noRedirectClient.Transport(*http.Transport)", .opaque, fun c => c.http && c.sharedClient⟩,
+  ⟨"postprocessor.AssertResponse.Body(slice)", .ro, fun c => c.kind == "httpscen"⟩,
+  ⟨"postprocessor.AssertResponse.Headers(map)", .ro, fun c => c.kind == "httpscen"⟩,
+  ⟨"postprocessor.AssertResponse.Size(*postprocessor.AssertSize)", .ro, fun c => c.kind == "httpscen"⟩,
+  ⟨"postprocessor.VarHeaderPostprocessor.Mapping(map)", .ro, fun c => c.kind == "httpscen"⟩,
   ⟨"postprocessor.VarJsonpathPostprocessor.Mapping(map)", .ro, fun c => c.kind == "httpscen"⟩,
+  ⟨"postprocessor.VarXpathPostprocessor.Mapping(map)", .ro, fun c => c.kind == "httpscen"⟩,
   ⟨"preprocessor.PreparePreprocessor.Mapping(map)", .ro, fun c => c.kind == "grpcscen"⟩,
   ⟨"preprocessor.PreparePreprocessor.iterator(*mp.NextIterator)", .ro, fun c => c.kind == "grpcscen"⟩,
   ⟨"preprocessor.Preprocessor.Mapping(map)", .ro, fun c => c.kind == "httpscen"⟩,
@@ -100,7 +118,16 @@ def inventory : List Entry := [
   ⟨"vs.SourceStorage.sources{}[](map)", .ro, fun c => c.scen⟩
 ]
 
-def classOf (label : String) : Option Share := (inventory.find? (·.label == label)).map (·.cls)
+/-- units that come into being while a pool shoots and are shared from then on: the `[next]` counter of a path (created
+under the iterator mutex at the first use of the path, an atomic afterwards) -/
+def lateInventory : List (String × Share) := [
+  ("mp.NextIterator.gs{}(*atomic.Uint64)", .sync [lockGs])
+]
+
+def classOf (label : String) : Option Share :=
+  match inventory.find? (·.label == label) with
+  | some e => some e.cls
+  | none => (lateInventory.find? (·.1 == label)).map (·.2)
 
 /-- the model's prediction: which units two instances of this pool share (labels, sorted as the harness prints them) -/
 def expectedShared (c : PoolCfg) : List String := (inventory.filter (·.on c)).map (·.label)
@@ -131,12 +158,64 @@ def judgeLocks (tbl : List C11LockRow) (objs : List String) : String :=
 
 /-! ### judgements -/
 
+/-! ### the regenerated closure table and hand-over words as observations -/
+
+/-- (closure, place) pairs where a function literal that assigns its captured variables is stored, and stays with one
+goroutine all the same: the progress callback of the decode provider's multi-pass reader is created in
+`(*decodeProvider).Run`, stored in the reader that `Run` created, and called by the decoder on the provider goroutine -/
+def confinedStores : List (String × String) := [
+  ("core/provider:Run.func2", "lib/ioutil2.SetProgress: r.progress = progress")
+]
+
+def closureOf (key : String) : Option C11Closure := Pandora.Gen.Locks.closures.find? (·.key == key)
+
+def closureText (c : C11Closure) : String :=
+  if !c.writes.isEmpty then s!"{c.key} assigns its captured {",".intercalate c.writes}"
+  else s!"{c.key} holds {",".intercalate c.holds}"
+
+def judgeClosures (cs : List C11Closure) : String :=
+  match cs.find? (fun c => !c11ClosureOk confinedStores c) with
+  | some c => s!"fail:stored-closure:{closureText c}; stored at {(c.stored.filter fun st => !confinedStores.contains (c.key, st)).headD ""}"
+  | none => "ok"
+
+/-- a function's dealings with a sample / an ammo it hands on (U use, G hand-over) as a program of the ownership model:
+the function holds the object when it starts -/
+def siteOps (w : String) : List OOp :=
+  .take 0 :: w.toList.filterMap fun c =>
+    if c == 'U' then some (.own ⟨0, true, 0⟩) else if c == 'G' then some (.give 0) else none
+
+def siteWordOk (w : String) : Bool := progOkB (fun _ => Class.sharedSync 0) 0 [] (siteOps w)
+
+def judgeSites (sites : List (String × String × String)) : String :=
+  match sites.find? (fun (_, _, w) => !siteWordOk w) with
+  | some (f, v, w) => s!"fail:use-after-handover:{f} touches {v} after handing it on (path {w})"
+  | none => "ok"
+
+/-- the key inside a closure label `place(closure:key)` -/
+def closureKey (label : String) : String :=
+  match label.splitOn "(closure:" with
+  | [_, rest] => (rest.dropEnd 1).toString
+  | _ => label
+
+def scannedPkg (key : String) : Bool := key.startsWith "components/" || key.startsWith "core/" || key.startsWith "lib/"
+
+/-- a closure object both instances reach: calling it must not change it -/
+def judgeSharedClosure (label : String) : Option String :=
+  let key := closureKey label
+  match closureOf key with
+  | some c => if c.stateful then some s!"fail:shared-closure:{label}: {closureText c}" else none
+  | none => if scannedPkg key then some s!"fail:shared-closure:{label}: not in the regenerated closure table" else none
+
 structure AliasObs where
   guns : String
   ammo : String
   served : String
   shared : List String
   mutated : List String
+  /-- units published by the first round of shots and changed by the second -/
+  latemut : List String := []
+  /-- closure objects reachable from both instances (before or after the shots) -/
+  closures : List String := []
 
 def judgeAlias (tbl : List C11LockRow) (o : AliasObs) : String :=
   if o.guns != "distinct" then s!"fail:gun-shared:two instances got {o.guns} gun object"
@@ -144,12 +223,15 @@ def judgeAlias (tbl : List C11LockRow) (o : AliasObs) : String :=
   else
     -- a write to a unit of the shared definition first (schedule-independent witness), then the lock facts of the
     -- units instances are allowed to write
-    match o.mutated.find? (fun l => match classOf l with
+    match (o.mutated ++ o.latemut).find? (fun l => match classOf l with
                                     | some (.sync _) => false
-                                    | _ => true) with
+                                    | _ => (l.splitOn "(*atomic.").length != 2) with
     | some l => s!"fail:shared-write:{l}"
     | none =>
-      match o.mutated.findSome? (fun l =>
+      match o.closures.findSome? judgeSharedClosure with
+      | some v => v
+      | none =>
+      match (o.mutated ++ o.latemut).findSome? (fun l =>
         match classOf l with
         | some (.sync objs) => match judgeLocks tbl objs with
                                | "ok" => none
@@ -260,5 +342,60 @@ def judgeTable (tbl : List C11LockRow) : String :=
   match badSiteAny tbl with
   | some r => s!"fail:unguarded:{siteText r}"
   | none => "ok"
+
+/-- everything `gen -area locks` re-extracted from the source of the tree under check -/
+def judgeStatic (tbl : List C11LockRow) (cs : List C11Closure) (sites : List (String × String × String)) : String :=
+  match judgeTable tbl with
+  | "ok" => (match judgeClosures cs with
+    | "ok" => judgeSites sites
+    | v => v)
+  | v => v
+
+/-! ### isolation of variables (mode=isolate) -/
+
+structure IsolateObs where
+  /-- per shot, what it echoed when the instances shot one after the other -/
+  together : List String
+  /-- per shot, what it echoes as the only shot of a fresh pool (same responses) -/
+  solo : List String
+
+def echoFields (e : String) : List String := (e.splitOn "/").flatMap (·.splitOn ",")
+
+def judgeIsolate (o : IsolateObs) : String :=
+  if o.together.length != o.solo.length then s!"fail:crash:{o.together.length} shots together, {o.solo.length} alone"
+  else match (o.together.zip o.solo).zipIdx.find? (fun ((a, b), _) => a != b) with
+    | none => "ok"
+    | some ((a, b), j) =>
+      match ((echoFields a).zip (echoFields b)).find? (fun (x, y) => x != y) with
+      | some (x, y) => s!"fail:cross-instance:shot {j} sent [{x}] after the other instances' shots, [{y}] when it is the only shot"
+      | none => s!"fail:cross-instance:shot {j} sent something else after the other instances' shots than alone"
+
+/-- `c11lib.Enc`: a single token -/
+def hexDigit (n : Nat) : Char := if n < 10 then Char.ofNat (48 + n) else Char.ofNat (55 + n)
+
+def encChar (c : Char) : String :=
+  if c == ' ' then "~"
+  else if c.isAlphanum || c == '_' || c == '.' || c == '-' || c == '{' || c == '}' then c.toString
+  else s!"%{hexDigit (c.toNat / 16)}{hexDigit (c.toNat % 16)}"
+
+def enc (s : String) : String := String.join (s.toList.map encChar)
+
+/-- what a text template prints for a variable that was never set -/
+def noValue := "<no value>"
+
+/-- the model's prediction of what one shot of the isolate scenario echoes, from the X-Tok header of its first response
+(`none` = no such header) and the modifier chains of the var/header mapping: step 2 sends every extracted variable and
+a body built from the JSON variable; step 3 sends the title it found in step 2's HTML answer (which the target built
+from the `raw` variable it was sent) -/
+def isolateEcho (chains : List (List Modifier)) (tok : Option String) : Option String :=
+  let rendered (v : Option String) := v.getD noValue
+  let raw := rendered tok
+  let vals := chains.mapM fun ms => match tok with
+    | none => some noValue
+    | some t => (applyChain ms t.toList).map fun r => String.ofList r
+  vals.map fun vs =>
+    let fields := vs.zipIdx.map fun (v, i) => s!"v{i}:{enc v}"
+    let body := enc "{\"k\":\"k123\",\"g\":\"gg\"}"
+    s!"raw:{enc raw},{",".intercalate fields},body:{body}/raw:{enc raw},title:{enc ("T-" ++ raw)},body:"
 
 end Pandora.Spec.C11
